@@ -4,10 +4,13 @@ import (
 	"context"
 	"fmt"
 	"math/rand"
+	"net/http"
+	"net/http/httptest"
 	"sort"
 	"strings"
 	"time"
 
+	"github.com/gin-gonic/gin"
 	"github.com/google/uuid"
 	"google.golang.org/grpc/codes"
 	"google.golang.org/grpc/status"
@@ -16,7 +19,9 @@ import (
 	"google.golang.org/protobuf/types/known/timestamppb"
 
 	"go.6river.tech/mmmbbb/actions"
+	"go.6river.tech/mmmbbb/controllers"
 	"go.6river.tech/mmmbbb/grpc/pubsubpb"
+	"go.6river.tech/mmmbbb/middleware"
 	"go.6river.tech/mmmbbb/services"
 
 	"verif/harness/ref"
@@ -45,8 +50,7 @@ type World struct {
 	Viols []Viol
 	Stats map[string]int64
 	Kinds map[string]int // operations by kind
-	// NoSlots disables the 10 ms op spacing (used by tight timing profiles)
-	quiet bool
+	gin   *gin.Engine
 }
 
 type OpRec struct {
@@ -339,6 +343,41 @@ func (w *World) UpdateSub(s *Sub, what string, r *rand.Rand) {
 	}
 }
 
+// SetDelay sets the injected delivery delay through the real controller.
+func (w *World) SetDelay(s *Sub, d time.Duration) {
+	w.slot()
+	if w.gin == nil {
+		gin.SetMode(gin.ReleaseMode)
+		r := gin.New()
+		r.Use(middleware.WithEntClient(w.E.Client, middleware.Key()))
+		if err := (&controllers.DelayInjectorController{}).Register(r); err != nil {
+			w.E.T.Fatalf("register delay controller: %v", err)
+		}
+		w.gin = r
+	}
+	body := fmt.Sprintf(`{"delay":%q}`, d.String())
+	req := httptest.NewRequest(http.MethodPut, "/delays/"+s.Name, strings.NewReader(body)).WithContext(w.Ctx)
+	req.Header.Set("content-type", "application/json")
+	rec := httptest.NewRecorder()
+	w.gin.ServeHTTP(rec, req)
+	w.rec("set-delay", fmt.Sprintf("%s %v", s.Name, d), fmt.Sprint(rec.Code))
+	if !s.Live {
+		if rec.Code != http.StatusNotFound {
+			w.violate("C12", "delay-on-dead-sub", "PUT /delays on a deleted subscription answered %d", rec.Code)
+		}
+		return
+	}
+	if s.Wild {
+		return
+	}
+	if rec.Code != http.StatusOK {
+		w.violate("C14", "set-delay-failed", "PUT /delays/%s %s answered %d: %s", s.Name, body, rec.Code, rec.Body.String())
+		return
+	}
+	s.Cfg.Delay = d
+	w.stat("delays_set", 1)
+}
+
 // ---- publish --------------------------------------------------------------
 
 type PubMsg struct {
@@ -433,27 +472,40 @@ func attrsEqual(a, b map[string]string) bool {
 	return true
 }
 
-// lookup finds the delivery record a received message refers to.
-func (w *World) lookup(s *Sub, rm *pubsubpb.ReceivedMessage) *Del {
+// lookup finds the delivery record a received message refers to. A message
+// can have several delivery rows on one subscription (dead-letter loops); an
+// ack id seen for the first time is matched to the record that best explains it.
+func (w *World) lookup(s *Sub, rm *pubsubpb.ReceivedMessage, lo, hi time.Time) *Del {
 	if d, ok := w.ByAck[rm.AckId]; ok {
 		return d
 	}
-	var cands []*Del
+	var best *Del
+	bestRank := -1
 	for _, d := range s.ByMsg[rm.GetMessage().GetMessageId()] {
-		if d.AckID == "" {
-			cands = append(cands, d)
+		if d.AckID != "" {
+			continue
+		}
+		rank := 0
+		switch {
+		case d.State == Out && d.why(may, lo, hi) == "" && d.Attempts+1 == int(rm.DeliveryAttempt):
+			rank = 4
+		case d.State == Out && d.why(may, lo, hi) == "":
+			rank = 3
+		case d.State == Out:
+			rank = 2
+		case d.Wild:
+			rank = 1
+		}
+		if rank > bestRank {
+			best, bestRank = d, rank
 		}
 	}
-	if len(cands) == 0 {
+	if best != nil && bestRank < 3 && w.wildSource(s, best.Msg) {
+		// no record explains it, but a forwarded copy from a delivery the model
+		// lost track of would: let the caller adopt it as such
 		return nil
 	}
-	// prefer an outstanding one
-	for _, d := range cands {
-		if d.State == Out {
-			return d
-		}
-	}
-	return cands[0]
+	return best
 }
 
 // propForMiss attributes a missing (must-be-offered) delivery.
@@ -497,6 +549,10 @@ func (w *World) checkDeliveries(s *Sub, via string, rms []*pubsubpb.ReceivedMess
 	uncertainDL := false
 	maybeSilent := 0 // rows that may be selected and retired without being returned
 	for _, d := range s.Dels {
+		if d.State == Out && !d.Wild && !d.countedExpired && d.expiredCertain(lo) {
+			d.countedExpired = true
+			w.stat("expired_not_offered", 1)
+		}
 		if d.State != Out {
 			if d.Wild {
 				// the model lost track of it: it may well be outstanding
@@ -512,12 +568,26 @@ func (w *World) checkDeliveries(s *Sub, via string, rms []*pubsubpb.ReceivedMess
 		if wy == "" {
 			maySet = append(maySet, d)
 		}
+		if d.dlEligible() && s.dlVoid() {
+			// the dead-letter topic was deleted: whether the policy still retires
+			// messages depends on whether the topic row was pruned - unspecified
+			if d.whyOpt(may, lo, hi, true) == "" {
+				maybeSilent++
+				if !d.Wild {
+					d.Wild = true
+					w.stat("wild_deadletter_topic_deleted", 1)
+				}
+			}
+			continue
+		}
 		if d.dlEligible() {
 			if wm == "" {
 				fwd = append(fwd, d)
 				continue
 			}
-			if wy == "" {
+			if d.whyOpt(may, lo, hi, true) == "" {
+				// (ordering deliberately ignored: a bent predecessor chain must not
+				// let the model believe a due delivery is safely parked)
 				maybeSilent++
 				if !d.Wild {
 					// cannot know whether it was forwarded by this request
@@ -543,7 +613,7 @@ func (w *World) checkDeliveries(s *Sub, via string, rms []*pubsubpb.ReceivedMess
 			continue
 		}
 		seen[rm.AckId] = true
-		d := w.lookup(s, rm)
+		d := w.lookup(s, rm, lo, hi)
 		mid := rm.GetMessage().GetMessageId()
 		if d == nil {
 			unexpected++
@@ -552,15 +622,26 @@ func (w *World) checkDeliveries(s *Sub, via string, rms []*pubsubpb.ReceivedMess
 			}
 			if m, ok := w.Msgs[mid]; ok {
 				p, sig := "C02", "unrouted-message"
-				if s.IsDLTarget && m.Topic != s.Topic {
+				if w.wildSource(s, m) {
+					// a delivery the model lost track of may have been dead-lettered
+					// into this subscription: adopt the copy, untracked
+					nd := w.newDel(s, m, Iv{lo, hi}, true)
+					nd.Wild = true
+					nd.AckID = rm.AckId
+					nd.Attempts = int(rm.DeliveryAttempt)
+					w.ByAck[rm.AckId] = nd
+					w.stat("wild_adopted_forward", 1)
+					continue
+				}
+				if w.isDLTarget(s) && m.Topic != s.Topic {
 					p, sig = "C06", "unexpected-forward"
 				} else if len(s.ByMsg[mid]) > 0 {
 					p, sig = "C02", "second-delivery-row"
-					if s.IsDLTarget {
+					if w.isDLTarget(s) {
 						p, sig = "C06", "duplicate-forward"
 					}
 				}
-				w.violate(p, sig, "%s on %s#%d returned message %s (topic %s, key %q, attrs %v) that has no delivery on it in the model", via, s.Name, s.Gen, short(mid), m.Topic.Name, m.Key, m.Attrs)
+				w.violate(p, sig, "%s on %s#%d (topic %s#%d filter %q dltarget=%v) at %s returned message %s (topic %s#%d, pub %s, key %q, attrs %v) as attempt %d that has no matching delivery in the model; model deliveries of that message: %s", via, s.Name, s.Gen, s.Topic.Name, s.Topic.Gen, s.Cfg.Filter, w.isDLTarget(s), ts(lo), short(mid), m.Topic.Name, m.Topic.Gen, m.Pub, m.Key, m.Attrs, rm.DeliveryAttempt, w.delsOfMsg(m))
 			} else {
 				w.violate("C02", "unknown-message", "%s on %s returned unknown message id %s", via, s.Name, mid)
 			}
@@ -587,15 +668,24 @@ func (w *World) checkDeliveries(s *Sub, via string, rms []*pubsubpb.ReceivedMess
 		if reason != "" && !d.Wild && !s.Decoy {
 			unexpected++
 			p, sig := propForUnexpected(reason)
-			w.violate(p, sig, "%s on %s#%d at %s delivered %s although the model says: %s", via, s.Name, s.Gen, ts(lo), d, reason)
+			if reason == "lease-running" && d.LeaseWhy == "arrival" {
+				p, sig = "C14", "delivered-before-delay"
+			}
+			if reason == "blocked-by-predecessor" {
+				sig += ":direct-predecessor-" + directPred(d, hi)
+			}
+			w.violate(p, sig, "%s on %s#%d at %s delivered %s although the model says: %s%s%s", via, s.Name, s.Gen, ts(lo), d, reason, sameKey(d), w.rowDiag(d))
 		}
 		if !d.Wild && !s.Decoy {
 			if int(rm.DeliveryAttempt) != d.Attempts+1 {
 				w.violate("C04", "attempt-number", "%s on %s: message %s reported delivery_attempt %d, model expects %d", via, s.Name, short(m.ID), rm.DeliveryAttempt, d.Attempts+1)
 			}
-			if s.hasDL() && int(rm.DeliveryAttempt) > s.Cfg.MaxAttempts {
+			if s.hasDL() && !s.dlVoid() && int(rm.DeliveryAttempt) > s.Cfg.MaxAttempts {
 				w.violate("C06", "attempts-exceed-max", "%s on %s: message %s delivered as attempt %d > max_delivery_attempts %d", via, s.Name, short(m.ID), rm.DeliveryAttempt, s.Cfg.MaxAttempts)
 			}
+		}
+		if d.Attempts == 0 && d.Lease.Lo.After(d.Arr.Lo) && d.LeaseWhy == "arrival" {
+			w.stat("delay_respected", 1)
 		}
 		// adopt what was observed
 		if d.State != Out {
@@ -1150,6 +1240,14 @@ func (w *World) Sweep(maxDeliveries int) {
 				uncertain++
 				continue
 			}
+			if s.dlVoid() {
+				if d.whyOpt(may, lo, hi, true) == "" {
+					uncertain++
+					d.Wild = true
+					w.stat("wild_deadletter_topic_deleted", 1)
+				}
+				continue
+			}
 			// the sweep ignores ordering
 			saveOrd := s.Cfg.Ordered
 			s.Cfg.Ordered = false
@@ -1282,4 +1380,68 @@ func (w *World) dueDiag(s *Sub, now time.Time) string {
 		}
 	}
 	return b.String()
+}
+
+func (w *World) delsOfMsg(m *Msg) string {
+	var b strings.Builder
+	for _, s := range w.AllSubs {
+		for _, d := range s.ByMsg[m.ID] {
+			fmt.Fprintf(&b, " %s", d)
+		}
+	}
+	return b.String()
+}
+
+// isDLTarget: some subscription (any generation) dead-letters into s's topic.
+func (w *World) isDLTarget(s *Sub) bool {
+	for _, x := range w.AllSubs {
+		if x.Cfg.DLTopic == s.Topic {
+			return true
+		}
+	}
+	return false
+}
+
+// wildSource: the model lost track of a delivery of m on a subscription that
+// dead-letters into s's topic, so a forwarded copy may legitimately appear on s.
+func (w *World) wildSource(s *Sub, m *Msg) bool {
+	for _, x := range w.AllSubs {
+		if x.Cfg.DLTopic != s.Topic {
+			continue
+		}
+		if x.Wild {
+			return true
+		}
+		for _, d := range x.ByMsg[m.ID] {
+			if d.Wild {
+				return true
+			}
+		}
+	}
+	return false
+}
+
+// directPred describes the state of the immediate same-key predecessor of d
+// (the shape of an ordering violation: "out" = the very predecessor is still
+// outstanding; anything else = an older message was overtaken after the link
+// in between went away).
+func directPred(d *Del, hi time.Time) string {
+	var ip *Del
+	for _, p := range d.Sub.Dels {
+		if p == d || p.Msg.Key != d.Msg.Key || p.Forwarded || p.ArrSeq >= d.ArrSeq {
+			continue
+		}
+		if ip == nil || p.ArrSeq > ip.ArrSeq {
+			ip = p
+		}
+	}
+	switch {
+	case ip == nil:
+		return "none"
+	case ip.Wild:
+		return "wild"
+	case ip.State == Out && ip.expiredPossible(hi):
+		return "expired"
+	}
+	return ip.State.String()
 }
